@@ -138,19 +138,36 @@ pub fn c16(h: &mut H) {
             if leaf_budget <= 0 { break; }
             leaf_budget -= 1;
             let (path, old) = lv[li].clone();
-            let edit = li % 3;
+            let edit = (li + h.rng.below(2) as usize * 3) % 6;
             if edit == 2 && old == 0 { continue; }
             let mut z = rp.clone();
             let mut cnt = 0usize;
             let f: Box<dyn Fn(&Integer) -> Integer> = match edit {
                 0 => Box::new(|x| Integer::from(x + 1u32)),
                 1 => Box::new(|x| Integer::from(x - 1u32)),
-                _ => Box::new(|_| Integer::from(0)),
+                2 => Box::new(|_| Integer::from(0)),
+                3 => Box::new(|x| Integer::from(x + (Integer::from(1) << 128))),
+                4 => Box::new(|x| Integer::from(x + (Integer::from(1) << 255))),
+                _ => Box::new(|x| Integer::from(x + (Integer::from(0xdeadbeefu32) << 300))),
             };
             map_leaf(&mut z, &mut cnt, li, &*f);
             h.stat("C16.leaf_edit");
             let v = rverify(h, &z, &g, &hh, &n, &a, &b);
             h.expect(!v.is_true(), "C16.leaf_edit", &format!("range proof accepted with field {} altered", path), &[h.last()]);
+        }
+        // hash-valued leaves shifted by multiples of 2^128 (a verifier that compares challenges modulo 2^t)
+        for (li, (path, _)) in lv.iter().enumerate() {
+            if path.ends_with(".C") || path.ends_with(".challenge") {
+                for sh in [128u32, 129, 200, 255, 256] {
+                    let mut z = rp.clone();
+                    let mut cnt = 0usize;
+                    let f = move |x: &Integer| Integer::from(x + (Integer::from(1) << sh));
+                    map_leaf(&mut z, &mut cnt, li, &f);
+                    h.stat("C16.challenge_shift");
+                    let v = rverify(h, &z, &g, &hh, &n, &a, &b);
+                    h.expect(!v.is_true(), "C16.challenge_shift", &format!("range proof accepted with {} shifted by 2^{}", path, sh), &[h.last()]);
+                }
+            }
         }
         let _ = (c, x);
     }
